@@ -268,9 +268,23 @@ def _execute_stage(sc, out, buf, stage):
             out.violate("plan_differs_between_backends", f"backend={backend}", "the plan of this backend's result differs from the first world's")
             continue
         out.observe(world, H, coh)
-        views = [("compute", j, H[j], coh[j], XX[j]) for j in range(nf)]
+        views = [("compute", j, H[j], coh[j], XX[j], bool(guard_bins[j])) for j in range(nf)]
         for j, rs in sing:
-            views.append(("single", j, complex(np.asarray(rs.Hxy)[0]), float(np.asarray(rs.coh)[0]), float(np.asarray(rs.XX)[0])))
+            # a single-bin result has its OWN segmentation: the reference model has to vouch for the law on that one
+            gd = False
+            if law == "delay":
+                if np.array_equal(np.asarray(rs.D[0]), np.asarray(res.D[j])):
+                    gd = bool(guard_bins[j])
+                else:
+                    ph_ = (omega[j] * d) % np.pi
+                    if 0.5 <= ph_ <= np.pi - 0.5:
+                        w_ = SC.reference_window(cfg0["win"], cfg0["psll"], int(Ls[j]))
+                        (mxx_, _, mur_, mui_, _), _, _, S_ = RM.ref_stats(x, y, np.asarray(rs.D[0]), int(Ls[j]), w_, omega[j], cfg0["order"])
+                        if mxx_ > 1e-6 * S_ * S_:
+                            hr_ = complex(mur_, -mui_) / mxx_
+                            dv_ = hr_ * np.exp(1j * omega[j] * d)
+                            gd = abs(np.angle(dv_)) <= 0.25 and abs(abs(hr_) - 1.0) <= 0.25
+            views.append(("single", j, complex(np.asarray(rs.Hxy)[0]), float(np.asarray(rs.coh)[0]), float(np.asarray(rs.XX)[0]), gd))
             # the two public routes to one bin: same segmentation => same transfer function (within the rounding budget)
             if np.array_equal(np.asarray(rs.D[0]), np.asarray(res.D[j])) and XX[j] > 0:
                 hs = complex(np.asarray(rs.Hxy)[0])
@@ -279,7 +293,7 @@ def _execute_stage(sc, out, buf, stage):
                 if XX[j] >= 1e-6 * S_est[j] ** 2 and not abs(hs - H[j]) <= tol_r:
                     out.violate("single_bin_disagrees_with_compute", f"backend={backend}",
                                 f"world={world} bin {j} (L={int(Ls[j])}, K={len(res.D[j])}): compute() gives Hxy={H[j]!r}, compute_single_bin at the same f, L and segmentation gives {hs!r}")
-        for via, j, h, c, xx in views:
+        for via, j, h, c, xx, guarded in views:
             L = int(Ls[j])
             S = S_est[j]
             if law == "gain":
@@ -300,7 +314,7 @@ def _execute_stage(sc, out, buf, stage):
                 if not abs(c - 1.0) <= 1e-9 + 4 * rel:
                     out.violate("gain_coherence", f"backend={backend} via={via}", f"world={world} bin {j}: coherence {c!r} for y = g*x")
             else:
-                if not guard_bins[j]:
+                if not guarded:
                     continue
                 nguard += 1
                 dev = h * np.exp(1j * omega[j] * d)
